@@ -80,7 +80,7 @@ def run(ctx: Ctx):
     if not (nf._fn(ret) == "torch.cat" and nf._seq_items(ret.args[1])):
         raise AnalysisError("dihedral_8_augmentation: return is not a torch.cat of the copies")
     zs = nf._seq_items(ret.args[1])
-    dim0 = any(a.op == "kw" and a.args[0] == "dim" and vg.is_const(a.args[1], 0) for a in ret.args[2:]) or (len(ret.args) > 2 and vg.is_const(ret.args[2], 0))
+    dim0 = nf.axis_is(ret, 0)
     ctx.ob("C15.a", "dihedral:concat-dim0-8-copies", len(zs) == 8 and dim0, fi.loc, f"{len(zs)} copies concatenated on dim 0 (layout (augment, batch))", construct="dihedral_8_augmentation:concat")
     seen = set()
     x_atom = y_atom = None
@@ -89,7 +89,7 @@ def run(ctx: Ctx):
         if nf._fn(z) == "torch.cat" and nf._seq_items(z.args[1]) and len(nf._seq_items(z.args[1])) == 2:
             u, v = nf._seq_items(z.args[1])
             lu, lv = lin(nf.poly(u)), lin(nf.poly(v))
-            d2 = any(a.op == "kw" and a.args[0] == "dim" and vg.is_const(a.args[1], 2) for a in z.args[2:])
+            d2 = nf.axis_is(z, 2)
             if lu and lv and d2:
                 (au, su, cu), (av, sv, cv) = lu, lv
                 if i == 0:
@@ -141,9 +141,16 @@ def run(ctx: Ctx):
     ctx.fn(fs_)
     it = vg.Interp(ctx.repo, None)
     fr = it.run_function(fs_)
-    L = fr.locals
-    xp, yp = L.get("x_prime"), L.get("y_prime")
-    x0, y0 = L.get("x"), L.get("y")  # after the offset subtraction
+    # x', y' are recovered from the returned value: where(mask, XY.flip(-1), XY) + offset with XY = cat((x', y'), -1)
+    xp = yp = None
+    for n in vg.walk(fr.ret) if isinstance(fr.ret, vg.S) else []:
+        if nf._fn(n) == "torch.where" and len(n.args) == 4 and nf._fn(n.args[3]) == "torch.cat":
+            its_ = nf._seq_items(n.args[3].args[1])
+            if its_ and len(its_) == 2:
+                xp, yp = its_
+    pn_ = fs_.params()
+    x0 = vg.mk("-", vg.mk("param", pn_[0]), vg.mk("param", pn_[3]))  # coordinates centred at the offset
+    y0 = vg.mk("-", vg.mk("param", pn_[1]), vg.mk("param", pn_[3]))
     ok, why = False, "x_prime / y_prime not found"
     if all(isinstance(v, vg.S) for v in (xp, yp, x0, y0)):
         P = nf.poly(xp) * nf.poly(xp) + nf.poly(yp) * nf.poly(yp) - nf.poly(x0) * nf.poly(x0) - nf.poly(y0) * nf.poly(y0)
@@ -155,7 +162,9 @@ def run(ctx: Ctx):
             why = "x'^2 + y'^2 - (x-o)^2 - (y-o)^2 == 0 modulo cos^2 + sin^2 = 1" if ok else f"the map is not norm preserving: residual {R.show(2)[:200]}"
         else:
             why = "rotation is not expressed with cos(phi) / sin(phi) of one angle"
-        off_ok = nf.poly(x0) == nf.poly(vg.mk("param", "x")) - nf.poly(vg.mk("param", "offset")) and nf.poly(y0) == nf.poly(vg.mk("param", "y")) - nf.poly(vg.mk("param", "offset"))
+        # x' and y' are linear in (x - offset), (y - offset): no un-centred use of the raw coordinates
+        lin_atoms = {a for q in (nf.poly(xp), nf.poly(yp)) for a in q.atoms() if nf._fn(a) not in ("torch.cos", "torch.sin")}
+        off_ok = lin_atoms == {nf.norm(vg.mk("param", pn_[0])), nf.norm(vg.mk("param", pn_[1])), nf.norm(vg.mk("param", pn_[3]))} and ok
         ctx.ob("C15.b", "symmetric_transform:centred", off_ok, fs_.loc, "coordinates are centred at the offset before rotating", construct="symmetric_transform:offset-in")
     ctx.ob("C15.b", "symmetric_transform:rotation-is-isometry", ok, fs_.loc, why, construct="symmetric_transform:isometry")
     ret = fr.ret
